@@ -9,9 +9,9 @@ v('c14-unsorted-unique-add','R-C14.1',C,"for field_names in sorted(new_unique_to
 v('c14-unsorted-index-together','R-C14.1',C,"for field_names in sorted(new_index_together):","for field_names in new_index_together:")
 v('c14-unsorted-rename-app','R-C14.1','mutations/rename_app_label.py',"for model_name in sorted(model_names)","for model_name in model_names")
 v('c14-unsorted-regroup','R-C14.1','mutators/app_mutator.py',"for model_name in sorted(model_names)","for model_name in model_names")
-v('c14-graph-unsorted-deps','R-C14.1','utils/graph.py',"""                        stack += sorted(node.dependencies,
-                                        key=lambda dep: dep.insert_index,
-                                        reverse=True)""","""                        stack += list(node.dependencies)""")
+v('c14-graph-unsorted-deps','R-C14.1','utils/graph.py',"""                        for dep in sorted(node.dependencies,
+                                          key=lambda dep: dep.insert_index,
+                                          reverse=True):""","""                        for dep in list(node.dependencies):""")
 v('c14-diff-unsorted','R-C14.1','signature.py',"        return sorted(changed_attrs)","        return changed_attrs")
 v('c14-new-set-loop','R-C14.1','mutations/delete_field.py',"""        for unique_together_entry in model_sig.unique_together:""","""        for unique_together_entry in set(model_sig.unique_together):""",note='signature list rebuilt in set order')
 v('c14-capture-other-var','R-C14.2','utils/sql.py',"""                        else:
